@@ -804,5 +804,6 @@ func locksExtra(t *tr) string {
 	b.WriteString(locksSubstr(t, loaded[locksPostprocPkg]))
 	b.WriteString(locksAmmoFlows(t, scanned))
 	b.WriteString(locksPooledEscapes(t, scanned))
+	b.WriteString(locksIndexFacts(t, loaded))
 	return b.String()
 }
